@@ -18,7 +18,7 @@ UNITS3 = [(0, 0, 0), (3, 0, 0), (-2, 0, 1), (0, 0, -2), (2, 0, 3)]
 
 
 def models(tier, seed):
-    return [dict(module='MC_C10.tla', cfg=f'MC_C10_{tier}.cfg', batch=20), dict(module='MC_C10.tla', cfg='MC_C10_quick2.cfg', batch=20)] + ([dict(module='MC_C10.tla', cfg='MC_C10_quick3.cfg', batch=20)] if tier == 'thorough' else [dict(module='MC_C10.tla', cfg='MC_C10_light3.cfg', batch=20)])
+    return [dict(module='MC_C10.tla', cfg=f'MC_C10_{tier}.cfg', batch=20), dict(module='MC_C10.tla', cfg='MC_C10_quick2.cfg', batch=20)] + ([dict(module='MC_C10.tla', cfg='MC_C10_quick3.cfg', batch=20)] if tier == 'thorough' else [dict(module='MC_C10.tla', cfg='MC_C10_one3.cfg', batch=20)])
 
 
 def required_tags(tier):
@@ -133,14 +133,16 @@ def replay(case, ctx):
         tg.add('inductors>=2')
     variants = case.get('schemes')
     if variants is None:
-        variants = [(0, 0, (0, 0, 0)), ((h % (N_SCHEMES - 1)) + 1, 0, UNITS3[(h >> 8) % len(UNITS3)])]
+        # the second variant takes its within-role index table from the hash as well (common.ID_PERMS): two capacitors / inductors / sources of one kind
+        # listed next to each other come in alphabetical order under one table and against it under another
+        variants = [(0, 0, (0, 0, 0)), ((h % (N_SCHEMES - 1)) + 1 + N_SCHEMES * (1 + (h >> 13) % 2), 0, UNITS3[(h >> 8) % len(UNITS3)])]
         # the same circuit again, same names, other capacitances / inductances (frequency unit): an analysis must not remember the previous one
         variants.append((0, 0, (0, 0, [1, -1, 2][h % 3])))
         # realistic decades (kOhm - nF - MHz, ...): capacitances and inductances far below 1, entries of A over many decades
         if ctx.get('tier') == 'thorough' or h % 2 == 0:
-            variants.append((((h >> 5) % N_SCHEMES), 0, [(3, 0, 6), (2, -3, 5), (0, 3, 8), (6, 0, 2)][(h >> 9) % 4]))
+            variants.append((((h >> 5) % N_SCHEMES) + N_SCHEMES * ((h >> 14) % 3), 0, [(3, 0, 6), (2, -3, 5), (0, 3, 8), (6, 0, 2)][(h >> 9) % 4]))
         if ctx.get('tier') == 'thorough':
-            variants.append((((h >> 3) % (N_SCHEMES - 1)) + 1, 0, UNITS3[(h >> 11) % len(UNITS3)]))
+            variants.append((((h >> 3) % (N_SCHEMES - 1)) + 1 + N_SCHEMES * 2, 0, UNITS3[(h >> 11) % len(UNITS3)]))
     for scheme, turns, units in variants:
         units = tuple(units)
         tg.add('scheme:Is<L<Vs' if scheme_is_default_order(scheme) else 'scheme:other')
